@@ -4,7 +4,7 @@ from ..rules import emitrules, limits, recursion
 
 
 def run(ctx, rep):
-    limits.rule_dispatch_loop_poll(ctx, rep, "C02-R1a")
+    limits.rule_dispatch_loop_poll(ctx, rep, "C02-R1a", which="memory")
     limits.rule_memory_check_shape(ctx, rep, "C02-R1")
     recursion.rule_no_host_recursion_for_script_calls(ctx, rep, "C02-R2")
     recursion.rule_host_reentry_guarded(ctx, rep, "C02-R3")
